@@ -25,7 +25,9 @@ ASSUMPTIONS = ['species identity = isomorphism of the hydrogen-explicit multigra
                'termination: RunReactants calls are counted through a proxy; more than 10 x the reference closure size '
                '(x rules) + 50 is the deterministic non-termination signal']
 
-SEEDS = ['C', 'CC', 'CCC', 'C=C', 'CC=C', 'C#C', 'CO', 'CCO', 'COC', 'OCCO', 'C=O', 'CC=O', 'O', '[CH3]', 'C[CH2]', 'OO', 'C=CC=C'[:3], 'CC(C)C'[:2] + 'C']
+SEEDS = ['C', 'CC', 'CCC', 'C=C', 'CC=C', 'C#C', 'CO', 'CCO', 'COC', 'OCCO', 'C=O', 'CC=O', 'O', '[CH3]', 'C[CH2]', 'OO', 'C=CC=C'[:3], 'CC(C)C'[:2] + 'C',
+         # the same species with only SOME hydrogens written as atoms (the others stay implicit)
+         '[H]C', '[H]CC', 'C([H])C', '[H]OC', '[H]C([H])O', '[H]C=C']
 # (name, (Z1, Z2, old order, new order|None), SMARTS, RING text)
 POOL = [
     ('CH-scission', (6, 1, 1, None), '[C:1][H:2]>>[C:1].[H:2]',
@@ -68,7 +70,8 @@ class Proxy(object):
 
 @st.composite
 def net_case(draw):
-    seeds = draw(st.lists(st.sampled_from(SEEDS), min_size=1, max_size=2, unique=True))
+    # distinct SPECIES (two spellings of one molecule would be the same seed given twice: not a documented input)
+    seeds = draw(st.lists(st.sampled_from(SEEDS), min_size=1, max_size=2, unique_by=lambda x: Chem.MolToSmiles(Chem.MolFromSmiles(x))))
     idx = draw(st.lists(st.integers(0, len(POOL) - 1), min_size=1, max_size=3, unique=True))
     forms = [draw(st.sampled_from(['smarts', 'ring'])) for _ in idx]
     return dict(kind='net', seeds=seeds, rules=idx, forms=forms)
@@ -131,6 +134,8 @@ def check_net(ctx, case):
         counter[0] = 0
         variants.append(('same rule objects again', list(seeds), rules))
         variants.append(('Mol-object seeds', [Chem.MolFromSmiles(s) for s in seeds], rules))
+        variants.append(('Mol-object seeds with the hydrogens of one atom explicit', [Chem.AddHs(Chem.MolFromSmiles(s), onlyOnAtoms=[0]) for s in seeds], rules))
+        variants.append(('Mol-object seeds with all hydrogens explicit', [Chem.AddHs(Chem.MolFromSmiles(s)) for s in seeds], rules))
         texts = [POOL[i][2] if f == 'smarts' else POOL[i][3] for i, f in zip(idx, forms)]
         variants.append(('rules as text', list(seeds), list(texts)))
         if len(seeds) == 1:
